@@ -51,25 +51,25 @@ class ConstProba(_Base):
 
 class InvertedDec(_Base):                   # minus the best feature (in its good direction)
     def decision_function(self, X):
-        return -self.sign * np.asarray(X, dtype=float)[:, 0]
+        return -2.0 * self.sign * np.asarray(X, dtype=float)[:, 0] + 0.5
 
 
 class MemoProba(_Base):                     # perfect on the rows it was fitted on, inverted on unseen rows
     def predict_proba(self, X):
         X = np.asarray(X, dtype=float)
         seen = np.array([int(v) in self.seen_ for v in X[:, 2]])
-        s = np.where(seen, 1.0, -1.0) * self.sign * X[:, 0]
+        s = 2.0 * np.where(seen, 1.0, -1.0) * self.sign * X[:, 0] + 0.5
         return np.column_stack([-s, s])
 
 
 class GoodDec(_Base):                       # as good as the best feature
     def decision_function(self, X):
-        return self.sign * np.asarray(X, dtype=float)[:, 0]
+        return 2.0 * self.sign * np.asarray(X, dtype=float)[:, 0] + 0.5
 
 
 class GoodProba(_Base):
     def predict_proba(self, X):
-        s = self.sign * np.asarray(X, dtype=float)[:, 0]
+        s = 2.0 * self.sign * np.asarray(X, dtype=float)[:, 0] + 0.5
         return np.column_stack([-s, s])
 
 
@@ -157,7 +157,8 @@ def run_brew_case(c, d, want_result=False):
             res = ("loud", msg, [])
         else:
             frames_tb = [f.name for f in traceback.extract_tb(e.__traceback__)]
-            if c.get("direction") and frames_tb[:2] == ["brew", "read_data"]:    # the fallback's read of column `feat`
+            if c.get("direction") and any(frames_tb[i:i + 2] == ["brew", "read_data"] for i in range(len(frames_tb))):
+                # the fallback's read of column `feat` (brew calls read_data itself only there)
                 res = ("bad", msg, [("direction-best-feat-values", "fallback with Model(direction=%r): %s" % (c["direction"], msg))])
             else:
                 res = ("bad", msg, [("brew-raises-" + type(e).__name__, msg)])
@@ -167,31 +168,32 @@ def run_brew_case(c, d, want_result=False):
     bad = []
     if len(flat) != len(frames) or any(len(s) != len(fr) for s, fr in zip(flat, frames)) or len(descs) != len(frames):
         return ("bad", "", [("score-shape", "scores/descs do not match the input files")]) + ((None,) if want_result else ())
-    # (a) fallback?
-    fb = [f for f in FEATS if all(np.array_equal(s, fr[f].to_numpy(dtype=float)) for s, fr in zip(flat, frames))]
-    all_t = np.concatenate(tgts)
+    if c.get("override", False):
+        return ("override", "", []) + ((None,) if want_result else ())
+    # the best single feature during training: per fold, accepted targets at train_fdr on the training rows
+    split = fold_structure(c, frames, d)
+    table = {}
+    for i in range(c["folds"]):
+        keep = [np.setdiff1d(np.arange(len(fr)), sp[i]) for fr, sp in zip(frames, split)]
+        t_tr = np.concatenate([t[k] for t, k in zip(tgts, keep)])
+        for f in ([c["direction"]] if c.get("direction") else FEATS):
+            col = np.concatenate([fr[f].to_numpy(dtype=float)[k] for fr, k in zip(frames, keep)])
+            for dsc in (True, False):
+                table[(i, f, dsc)] = n_accepted(col, t_tr, c["train_fdr"], dsc)
+    B = max(table.values())
+    best_pairs = set((f, dsc) for (i, f, dsc), v in table.items() if v == B)
+    # (a) fallback: every file's scores are the column of one feature (text files: up to the parser's last digit)
+    fb = [f for f in FEATS if all(np.allclose(s, fr[f].to_numpy(dtype=float), rtol=1e-12, atol=1e-12)
+                                  for s, fr in zip(flat, frames))]
     kind = "model"
     if fb:
         kind = "fallback"
-        f = fb[0]
-        col = np.concatenate([fr[f].to_numpy(dtype=float) for fr in frames])
-        hi, lo = n_accepted(col, all_t, c["train_fdr"], True), n_accepted(col, all_t, c["train_fdr"], False)
-        if hi != lo:
-            want = hi > lo
-            if any(bool(x) != want for x in descs):
-                bad.append(("fallback-wrong-direction", "scores are feature %s (accepts %d targets descending, %d ascending) "
-                            "but descs=%s" % (f, hi, lo, list(descs))))
-    elif not c.get("override", False):
+        if len(set(bool(x) for x in descs)) != 1 or (fb[0], bool(descs[0])) not in best_pairs:
+            bad.append(("fallback-not-best-feature-or-direction", "scores are the column of %s with descs=%s, but the best "
+                        "feature/direction on a training fold is %s (%d targets)" % (fb[0], list(descs), sorted(best_pairs), B)))
+    else:
         # (b) at least as many targets as the best single feature during training
         A = sum(n_accepted(s, t, c["test_fdr"], bool(dsc)) for s, t, dsc in zip(flat, tgts, descs))
-        split = fold_structure(c, frames, d)
-        B = 0
-        for i in range(c["folds"]):
-            keep = [np.setdiff1d(np.arange(len(fr)), sp[i]) for fr, sp in zip(frames, split)]
-            t_tr = np.concatenate([t[k] for t, k in zip(tgts, keep)])
-            for f in ([c["direction"]] if c.get("direction") else FEATS):
-                col = np.concatenate([fr[f].to_numpy(dtype=float)[k] for fr, k in zip(frames, keep)])
-                B = max(B, n_accepted(col, t_tr, c["train_fdr"], True), n_accepted(col, t_tr, c["train_fdr"], False))
         if A < B:
             bad.append(("worse-than-best-feature-no-fallback", "returned scores accept %d targets at %g, the best feature "
                         "accepted %d on a training fold at %g, and the scores are not a feature column"
@@ -248,7 +250,7 @@ def check_fallback(tier, seed):
         for c in cases:
             kind, msg, bad = run_brew_case(c, d)
             kinds[kind] = kinds.get(kind, 0) + 1
-            ck.case(c, nontrivial=kind in ("fallback", "model") and not c.get("override", False))
+            ck.case(c, nontrivial=kind in ("fallback", "model"))
             found += [(cid, what, c) for cid, what in bad]
     ck.rule += "; outcomes: %s" % json.dumps(kinds, sort_keys=True)
     report(ck, found)
